@@ -400,6 +400,8 @@ def option_arm(E, e, is_subject):
 # ======================================================================================================
 from .lib.guards import always_through, edge_dominates
 from .lib.value import vstr
+from .lib.mir import op_place
+from .lib.tables import arm_defs, phi_local_of
 
 
 def every_element(E, e):
@@ -426,6 +428,17 @@ def every_element(E, e):
         return 'unproven', 'an adapter whose selection cannot be stated', it
     if sel.guards:
         return 'violated', 'runs only under a per-element condition: %s' % '; '.join(vstr(vs[0][0])[:80] for _, _, vs in sel.guards), it
+    vd, why = _all_paths_reach(E, e, it)
+    return vd, why, it
+
+
+def _all_paths_reach(E, e, it, skip_edges=None, exhausted=False):
+    """within iteration `it` of effect e: every path from the start of the body to the next element (or to a success
+    exit) passes through the call, at every level below the iteration; `skip_edges` {fn path: [(src, tgt)]} are the edges
+    of recognised per-element decisions that may leave the path (the element is then *not selected*); with
+    `exhausted`, the function's success must additionally come after the loop ran to exhaustion (no `break` / early
+    `return Ok(..)` once some element was seen)"""
+    skip_edges = skip_edges or {}
     ls = levels(e)
     j = it.level
     c = ls[j][0]
@@ -436,27 +449,34 @@ def every_element(E, e):
         tb = L.next_call.target
         entries = [s for s in f.succs(tb) if s in L.body] if tb is not None else []
         ends = {L.header} | {s.bb for s in E.sites(f)}
-        skip = [L.exhaust] if getattr(L, 'exhaust', None) else []
+        skip = ([L.exhaust] if getattr(L, 'exhaust', None) else []) + list(skip_edges.get(f.path, ()))
         if not entries:
-            return 'unproven', 'loop body not found', it
+            return 'unproven', 'loop body not found'
         if not all(always_through(f, s, c.bb, ends, skip) for s in entries):
-            return 'violated', 'an iteration can go on to the next element (or leave the loop successfully) without reaching it', it
+            return 'violated', 'an iteration can go on to the next element (or leave the loop successfully) without reaching it'
+        if exhausted:
+            ex = getattr(L, 'exhaust', None)
+            sites = E.sites(f)
+            if ex is None or not sites:
+                return 'unproven', 'the loop\'s exhaustion edge was not found'
+            if any(s.bb in L.body or not edge_dominates(f, ex[0], ex[1], s.bb) for s in sites):
+                return 'violated', 'the function can succeed before the loop has seen every element (break / early return)'
         first = j + 1
     else:
         # the body is the closure handed to an iterator adapter / consumer: the next level
         if j + 1 >= len(ls):
-            return 'unproven', 'iteration without a body', it
+            return 'unproven', 'iteration without a body'
         first = j + 1
     for k in range(first, len(ls)):
         ck = ls[k][0]
         fk = ck.fn
         if k > first or lps:
             if not _direct(E, ls[k - 1][0], fk):
-                return 'unproven', 'reached through an indirect call', it
+                return 'unproven', 'reached through an indirect call'
         sites = [s.bb for s in E.sites(fk)] or list(fk.return_blocks())
-        if not always_through(fk, 0, ck.bb, sites):
-            return 'violated', '%s can succeed without reaching it' % fk.path, it
-    return 'ok', '', it
+        if not always_through(fk, 0, ck.bb, sites, list(skip_edges.get(fk.path, ()))):
+            return 'violated', '%s can succeed without reaching it' % fk.path
+    return 'ok', ''
 
 
 # ---- path / command normal forms -------------------------------------------------------------------------
@@ -613,7 +633,11 @@ def rules_e2e(ctx, rep, ex, dest):
     if dest is None:
         rep.unproven('R8', 'destination', _w(ex), 'no destination value (see R1)')
         return
-    nd = norm(sl, dest)
+    # the functions providing the binary target names / the buildpack's own target stay opaque anchors (R10 decides on them)
+    roles = find_roles(prog, sl)
+    keep = tuple(KEEP) + roles.keep()
+    nrm = lambda v_: norm(sl, v_, keep)
+    nd = nrm(dest)
     is_pkgdir = lambda v: (v[0] == 'call' and v[1] == AP) or (v[0] == 'phi' and v[1] and all(strip(x)[0] == 'call' and strip(x)[1] == AP for x in v[1]))
     dc = path_comps(nd, is_pkgdir)
     node = None
@@ -632,18 +656,18 @@ def rules_e2e(ctx, rep, ex, dest):
         return
     rep.check(ok, 'R8', 'dest-shape', _w(ex), 'output directory = <package dir>/<..>/<buildpack id with every "/" replaced>: one directory per id, none inside another',
               'the directory name is not the buildpack id with every "/" replaced (ids with several "/" nest inside / collide with other output directories): %s' % vstr(dc[-1])[:200])
-    under = lambda v: path_comps(norm(sl, v), lambda r: same(r, nd))
+    under = lambda v: path_comps(nrm(v), lambda r: same(r, nd))
     in_loop = lambda e: bool(selection(E, e).iterations)
     # everything that is mutated while a node is packaged lies in that node's output directory
     outside = [e for e in may if e.kind in MUT and e.path is not None and in_loop(e) and under(e.path) is None]
     rep.check(not outside, 'R8', 'inside-dest', outside[0].where() if outside else _w(ex), 'every file-system mutation of the packaging loop lies in the node\'s output directory',
-              'the packaging loop mutates paths outside the node\'s output directory: %s' % '; '.join('%s %s' % (e.kind, vstr(norm(sl, e.path))[:120]) for e in outside[:3]))
+              'the packaging loop mutates paths outside the node\'s output directory: %s' % '; '.join('%s %s' % (e.kind, vstr(nrm(e.path))[:120]) for e in outside[:3]))
     # buildpack.toml <- <node dir>/buildpack.toml, same node
     copies = [e for e in may if e.call is not None and e.call.is_('std::fs::copy') and e.args]
     desc = [e for e in copies if under(e.path) is not None and tuple(const_of(x) for x in under(e.path)) == ('buildpack.toml',)]
     good = bool(desc)
     for e in desc:
-        sc = path_comps(norm(sl, e.args[0]), lambda r: node_of(r, 'path') is not None and same(node_of(r, 'path'), node))
+        sc = path_comps(nrm(e.args[0]), lambda r: node_of(r, 'path') is not None and same(node_of(r, 'path'), node))
         good = good and sc is not None and tuple(const_of(x) for x in sc) == ('buildpack.toml',)
     rep.check(good, 'R8', 'descriptor-source', desc[0].where() if desc else _w(ex), 'buildpack.toml of a node is copied from that node\'s own directory (%d writer(s))' % len(desc),
               'buildpack.toml in the output directory is not a copy of <node.path>/buildpack.toml of the node being packaged')
@@ -654,7 +678,7 @@ def rules_e2e(ctx, rep, ex, dest):
     good = bool(spawns)
     why = []
     for e in spawns:
-        cp = command_parts(norm(sl, e.path))
+        cp = command_parts(nrm(e.path))
         consts = [const_of(a) for a in cp['args']]
         tv = cp['args'][consts.index('--target') + 1] if '--target' in consts and consts.index('--target') + 1 < len(consts) else None
         cwd_ok = cp['cwd'] is not None and node_of(cp['cwd'], 'path') is not None and same(node_of(cp['cwd'], 'path'), node)
@@ -669,7 +693,7 @@ def rules_e2e(ctx, rep, ex, dest):
     good = bool(mains)
     why = ''
     for e in mains:
-        sv = norm(sl, e.args[0])
+        sv = nrm(e.args[0])
         holder = []
 
         def is_td(r, holder=holder):
@@ -688,9 +712,9 @@ def rules_e2e(ctx, rep, ex, dest):
                     own = own or (mc is not None and tuple(const_of(c) for c in mc) == ('Cargo.toml',))
                 if x[0] == 'call' and x[1].endswith('MetadataCommand::current_dir') and len(x[2]) == 2:
                     own = own or (node_of(x[2][1], 'path') is not None and same(node_of(x[2][1], 'path'), node))
-            t = strip(sc[2])
+            t = sc[2]
             this = own and any(same(sc[0], tv) for tv in triples) and select_map(sc[1]) == {'Release': 'release', 'Dev': 'debug'} and \
-                t[0] == 'call' and t[1] == DETERMINE and len(t[2]) == 1 and same(t[2][0], md)
+                roles.main is not None and role_of(prog, t, lambda a: same(a, md)) == roles.main
         if not this:
             why = vstr(sv)[:400]
         good = good and this
@@ -805,6 +829,154 @@ def rules_build_binary(ctx, rep):
     else:
         rep.check(dirs is not None and flag == want == {'Release'}, 'R9', 'release-flag', _w(bf), '`--release` is passed exactly when the artifact is read from release/ (profile Release)',
                   '`--release` is passed for profile(s) %s but the artifact is read from release/ for %s: the binary that is packaged is not the one that was just built' % (sorted(flag) or 'none', sorted(want) or 'none'))
+
+
+# ---- roles: which workspace function provides "the binary target names" / "the buildpack's own target" ----------
+# The obligations R4 / R8 / R10 are about two *values* — the names of the crate's binary targets and the one of them that
+# is the buildpack — not about two function names.  They are found where they are used: the target name handed to the
+# build_binary call outside any iteration, and the collection the iterated build_binary call ranges over, each as
+# <projection of the success payload of g(<metadata>)>.  g may be one function per value (the baseline) or one function
+# returning both in a struct / tuple; R10 then decides on g (and the projection) what the value is.
+class Roles:
+    def __init__(self, main, names, found):
+        self.main = main        # (function path, (field, ..)) providing the buildpack's own target name
+        self.names = names      # ... the binary target names
+        self.found = found      # were they read off build_buildpack_binaries (else: the baseline functions by name)
+
+    def keep(self):
+        return tuple(r[0] for r in (self.main, self.names) if r is not None)
+
+
+def provider_form(prog, v):
+    """v = <conversions / success payload / field projections> of a call to a workspace function ->
+    ((function path, projection), argument values), else (None, ())"""
+    proj = []
+    for _ in range(16):
+        v = peel_coll(peel_path(v))
+        if v[0] == 'field':
+            proj.insert(0, v[2])
+            v = v[1]
+            continue
+        if v[0] == 'call' and v[1] in prog.fns and prog.fns[v[1]].kind != 'Closure':
+            return (v[1], tuple(proj)), tuple(v[2])
+        break
+    return None, ()
+
+
+_ROLES = {}
+
+
+def find_roles(prog, sl):
+    key = id(prog)
+    if key in _ROLES and _ROLES[key][0] is prog:
+        return _ROLES[key][1]
+    from .lib.effects import Effects
+    main = names = None
+    bb = prog.fns.get(BBB)
+    if bb is not None:
+        try:
+            E4 = Effects(prog, sl, vocab={BUILD: ('BUILD', 5)})
+            builds = [(e, selection(E4, e)) for e in expand(E4, bb, 'may') if e.kind == 'BUILD']
+            outside = [e for e, s_ in builds if not s_.iterations]
+            inside = [s_ for e, s_ in builds if s_.iterations]
+            if len(outside) == 1 and outside[0].path is not None:
+                main = provider_form(prog, outside[0].path)[0]
+            if len(inside) == 1 and len(inside[0].iterations) == 1 and inside[0].iterations[0].base is not None:
+                names = provider_form(prog, inside[0].iterations[0].base)[0]
+        except (IndexError, KeyError, TypeError, AttributeError, ValueError):
+            main = names = None
+    found = main is not None and names is not None
+    if main is None and DETERMINE in prog.fns:
+        main = (DETERMINE, ())
+    if names is None and NAMES in prog.fns:
+        names = (NAMES, ())
+    r = Roles(main, names, found)
+    _ROLES.clear()
+    _ROLES[key] = (prog, r)
+    return r
+
+
+def role_of(prog, v, md_pred=None):
+    """the (function, projection) a value is provided by, when its first argument satisfies md_pred"""
+    r, args = provider_form(prog, v)
+    if r is None or not args or (md_pred is not None and not md_pred(strip(args[0]))):
+        return None
+    return r
+
+
+def role_value(sl, g, proj):
+    """success value of g, projected"""
+    rv = sl.local(g, 0)
+    if g.ret.startswith(('std::result::Result<', 'std::option::Option<')):
+        rv = sl.mk_unwrap(rv, 1)
+    for p_ in proj:
+        rv = sl._field(strip(rv), p_)
+    return rv
+
+
+def _field_operand(fn, operand, want):
+    """operand holds an aggregate (struct / tuple / Ok / Some) built by one statement of fn: the operand of its field"""
+    pl = op_place(operand)
+    for _ in range(8):
+        if pl is None or [x for x in pl[1:] if x != '*']:
+            return None
+        defs = fn.whole_defs(pl[0])
+        if len(defs) != 1 or defs[0][0] != 'stmt':
+            return None
+        rv = defs[0][3]
+        if rv['r'] == 'agg':
+            if rv.get('kind') == 'adt' and want in rv.get('fields', []):
+                return rv['ops'][list(rv['fields']).index(want)]
+            if rv.get('kind') == 'tuple' and want.isdigit() and int(want) < len(rv['ops']):
+                return rv['ops'][int(want)]
+            return None
+        if rv['r'] == 'use':
+            pl = op_place(rv['o'])
+            continue
+        return None
+    return None
+
+
+def projected_defs(E, g, proj):
+    """every way the (projected) success value of g comes into being: [(value, [Cond..], block)] with the branch
+    decisions under which that definition is made; None when the construction cannot be read"""
+    sl = E.slicer
+    out = []
+    if not proj:
+        for st in E.sites(g):
+            for v, ch in E.returned(g, st):
+                out.append((strip(sl.mk_unwrap(v, 1)), conditions(g, st.bb, sl), st.bb))
+        return out
+    wrapped = g.ret.startswith(('std::result::Result<', 'std::option::Option<'))
+    for st in E.sites(g):
+        if st.kind != 'ok':
+            return None
+        rv = st.stmt
+        if wrapped:
+            if not (rv['r'] == 'agg' and rv.get('variant') in ('Ok', 'Some') and len(rv['ops']) == 1):
+                return None
+            op = rv['ops'][0]
+            for p_ in proj:
+                op = _field_operand(g, op, p_) if op is not None else None
+        else:
+            op = None
+            if rv['r'] == 'agg' and rv.get('kind') == 'adt' and proj[0] in rv.get('fields', []):
+                op = rv['ops'][list(rv['fields']).index(proj[0])]
+            elif rv['r'] == 'agg' and rv.get('kind') == 'tuple' and proj[0].isdigit() and int(proj[0]) < len(rv['ops']):
+                op = rv['ops'][int(proj[0])]
+            for p_ in proj[1:]:
+                op = _field_operand(g, op, p_) if op is not None else None
+        if op is None:
+            return None
+        here = conditions(g, st.bb, sl)
+        loc = phi_local_of(g, op)
+        if loc is None:
+            out.append((strip(sl.operand(g, op)), here, st.bb))
+        else:
+            # a `match` / `if` producing the value: one row per arm, with the decisions taken for that arm
+            for bi, v, conds in arm_defs(g, loc, sl):
+                out.append((strip(v), list(conds) + [c for c in here if all(c.sw_bb != d.sw_bb for d in conds)], bi))
+    return out
 
 
 # ---- R10: which binary targets there are and which one is the buildpack (cargo.rs) ----------------------------
@@ -930,15 +1102,19 @@ def rules_cargo(ctx, rep):
     prog, sl = ctx.prog, ctx.slicer
     from .lib.effects import Effects
     rep.rule('R10', 'cargo.rs: the binary targets are all `bin` targets of the root package; the buildpack binary is the only one or the one named like the package')
-    nf, df = prog.fns.get(NAMES), prog.fns.get(DETERMINE)
+    roles = find_roles(prog, sl)
+    nf = prog.fns.get(roles.names[0]) if roles.names else None
+    df = prog.fns.get(roles.main[0]) if roles.main else None
     if nf is None or df is None:
-        rep.unproven('R10', 'functions', '-', 'cargo_binary_target_names / determine_buildpack_cargo_target_name not found')
+        rep.unproven('R10', 'functions', '-', 'no function providing the binary target names / the buildpack\'s cargo target name found '
+                     '(cargo_binary_target_names / determine_buildpack_cargo_target_name, or what build_buildpack_binaries uses in their place)')
         return
     rep.analysed(nf)
     rep.analysed(df)
     E = Effects(prog, sl)
-    p0 = lambda f: (lambda v: v[0] == 'param' and v[1] == f.path and v[2] == 0)
-    nv = _names_value(sl, sl.local(nf, 0))
+    # the cargo metadata the function decides on: its parameter of that type
+    p0 = lambda f: (lambda v: v[0] == 'param' and v[1] == f.path and v[2] < len(f.args) and 'cargo_metadata::Metadata' in str(f.args[v[2]]))
+    nv = _names_value(sl, role_value(sl, nf, roles.names[1]))
     vd, why = names_shape(sl, nv, p0(nf))
     if vd == 'unproven':
         rep.unproven('R10', 'binary-target-names', _w(nf), 'cannot read the set of binary target names: ' + why)
@@ -974,13 +1150,11 @@ def rules_cargo(ctx, rep):
                 return (root_name(a) and same(peel_path(b), ra[0][0])) or (root_name(b) and same(peel_path(a), ra[0][0]))
         return False
     bad, unread = [], []
-    pts = []
-    for st in E.sites(df):
-        for v, ch in E.returned(df, st):
-            pts.append((st, v))
-    for st, v in pts:
-        u = strip(sl.mk_unwrap(v, 1))
-        conds = conditions(df, st.bb, sl)
+    pts = projected_defs(E, df, roles.main[1])
+    if pts is None:
+        rep.unproven('R10', 'main-target', _w(df), 'cannot read how %s of %s comes into being' % ('.'.join(roles.main[1]), df.path))
+        return
+    for u, conds, at_bb in pts:
         if root_name(u):
             ok = any(membership(x, oc) for cd in conds if cd.kind == 'bool' for x, oc in cd.views())
             if not ok:
@@ -1000,7 +1174,7 @@ def rules_cargo(ctx, rep):
             def len_of(x):
                 x = strip(x)
                 return (x[0] == 'call' and x[1].endswith('::len') and len(x[2]) == 1 and is_names(x[2][0])) or (x[0] == 'un' and x[1] == 'PtrMetadata' and is_names(x[2]))
-            lens = [labels for gv, labels in _int_guards(df, st.bb, sl) if len_of(gv)]
+            lens = [labels for gv, labels in _int_guards(df, at_bb, sl) if len_of(gv)]
             for cd in conds:
                 if cd.kind == 'bool':
                     for x, oc in cd.views():
@@ -1163,6 +1337,145 @@ def truth_paths(sl, g):
     return alts_[0]
 
 
+_ENTRY_PATH = ('DirEntry::path', 'DirEntry::into_path')      # both denote the path of the walked entry
+PUSH = 'std::vec::Vec::<T, A>::push'
+
+
+def _entry_test_parts(t, oc, is_entry_path):
+    """one per-entry test (value, outcome) -> (every conjunct is `<entry path>.is_dir()` or `<entry path>/buildpack.toml
+    exists`?, the descriptor test is among them?)"""
+    t, oc = _peel_not(strip(t), oc)
+    t = strip(t)
+    if t[0] == 'bin' and t[1] in ('BitAnd', 'And'):
+        parts = [(t[2], oc), (t[3], oc)]
+    else:
+        parts = [(t, oc)]
+    desc = False
+    for x, o in parts:
+        x = strip(x)
+        if x[0] == 'call' and x[1] in _STAT and o is True and x[2] and \
+                tuple(const_of(c) for c in (path_comps(x[2][0], is_entry_path) or ())) == ('buildpack.toml',):
+            desc = True
+        elif x[0] == 'call' and x[1] == 'std::path::Path::is_dir' and o is True and x[2] and is_entry_path(x[2][0]):
+            pass
+        else:
+            return False, False
+    return True, desc
+
+
+def _kept_values(sl, v, depth=0):
+    """the values an element production can yield: `Some(x)` / `None` arms, `test.then_some(x)`, `test.then(|| x)` -> [x..]"""
+    v = strip(v)
+    if depth > 8:
+        return [v]
+    if v[0] == 'phi':
+        return [y for x in v[1] for y in _kept_values(sl, x, depth + 1)]
+    if v[0] == 'agg' and v[2] in ('Some', 'Ok') and len(v[3]) == 1:
+        return _kept_values(sl, v[3][0][1], depth + 1)
+    if v[0] == 'agg' and v[2] == 'None':
+        return []
+    if v[0] == 'call' and v[1].endswith('::then_some') and len(v[2]) == 2:
+        return _kept_values(sl, v[2][1], depth + 1)
+    if v[0] == 'call' and v[1].endswith('::then') and len(v[2]) == 2 and strip(v[2][1])[0] == 'closure':
+        r = sl.apply_closure(strip(v[2][1]), ())
+        return _kept_values(sl, r, depth + 1) if r is not None else [v]
+    return [v]
+
+
+def _collected_pipeline(E, v):
+    """(a) v is an iterator pipeline: -> (verdict, why, walked collection, tests [[(value, outcome) views]], other, payloads)"""
+    sl, prog = E.slicer, E.prog
+    al = iters.alts(sl, v)
+    if len(al) != 1 or al[0][1] is None:
+        return 'unproven', 'the result is not one pass over one walk: %s' % vstr(v)[:200], None, [], [], []
+    el, coll, fl = al[0]
+    if fl == 'trunc' or any(st[3] for st in iters.stages(strip(v), with_stop=True)):
+        # (reported after the walker itself was looked at: see rules_discovery)
+        vd = walker_verdict(coll, lambda r: True)
+        if vd[0] == 'ok':
+            return 'violated', 'a truncating adapter (map_while / take_while / take / skip ..) ends the walk at the first entry that is not a buildpack directory', coll, [], [], []
+    tests, other = [], []
+    for name, clv, rv, stopped in iters.stages(strip(v), with_stop=True):
+        g = prog.fns.get(clv[1]) if clv[0] == 'closure' else None
+        short = name.rsplit('::', 1)[1]
+        if short in ('map', 'inspect'):
+            continue
+        if g is None or short not in ('filter', 'filter_map'):
+            other.append(short)
+            continue
+        ra = iters.alts(sl, rv)
+        m = {(g.path, 1): ra[0][0]} if len(ra) == 1 else {}
+        if short == 'filter_map':
+            pts = [(g, bi) for bi, b in enumerate(g.blocks) for st in b['s'] if st[0] == '=' and st[2]['r'] == 'agg' and st[2].get('variant') == 'Some']
+            if not pts:
+                r = sl.apply_closure(clv, (ra[0][0],)) if len(ra) == 1 else None
+                r = strip(r) if r is not None else None
+                if r is not None and r[0] == 'call' and r[1].endswith(('::then_some', '::then')) and len(r[2]) == 2:
+                    tests.append([(r[2][0], True)])
+                else:
+                    other.append('filter_map closure')
+                continue
+            for g_, bi in pts:
+                for cd in conditions(g_, bi, sl):
+                    if cd.kind == 'bool':
+                        tests.append([(E.subst(x, m), oc) for x, oc in cd.views()])
+                    elif not (cd.enum or '').startswith(('std::option::Option', 'std::result::Result')):
+                        other.append('match on %s' % cd.enum)
+        else:
+            tp = truth_paths(sl, g)
+            if tp is None or len(ra) != 1:
+                other.append('filter closure')
+            else:
+                tests.extend([(E.subst(x, m), oc)] for x, oc in tp)
+    return 'ok', '', coll, tests, other, [el]
+
+
+def _filled_by_push(E0, fn, vec):
+    """(b) vec (a fresh empty collection created in fn and returned by it) gets its elements by `push`: every push as an
+    effect of fn (in fn itself, in a closure handed to for_each, in a private helper), the one iteration it runs in, the
+    per-element decisions it runs under.  Nothing else may touch the collection, every selected element must reach the
+    push, and fn must not succeed before the pass is over."""
+    from .lib.effects import Effects
+    sl, prog = E0.slicer, E0.prog
+    none = (None, [], [], [])
+    E = Effects(prog, sl, vocab={PUSH: ('PUSH', 1)})
+    is_vec = lambda x: strip(x) == vec
+    pushes = [e for e in expand(E, fn, 'may') if e.kind == 'PUSH' and e.args and is_vec(e.args[0])]
+    if len(pushes) != 1:
+        return ('unproven', 'not an ignore::Walk over the given directory: %s (%d push sites)' % (vstr(vec)[:120], len(pushes))) + none
+    e = pushes[0]
+    touched = [c for g in [fn] + all_closures(prog, fn) for c in g.calls if c is not e.call and not c.indirect and
+               any(is_vec(sl.operand(g, a)) for a in c.args)]
+    if touched:
+        return ('unproven', 'the returned collection is also handed to %s' % touched[0].name) + none
+    sel = selection(E, e)
+    if len(sel.iterations) != 1 or sel.iterations[0].recv is None or sel.iterations[0].opaque:
+        return ('unproven', 'the result is not filled in one pass over one walk') + none
+    it = sel.iterations[0]
+    al = iters.alts(sl, it.recv)
+    if len(al) != 1 or al[0][1] is None:
+        return ('unproven', 'the result is not filled in one pass over one walk: %s' % vstr(it.recv)[:200]) + none
+    coll = al[0][1]
+    if al[0][2] == 'trunc' or any(st[3] for st in iters.stages(strip(it.recv), with_stop=True)):
+        if walker_verdict(coll, lambda r: True)[0] == 'ok':
+            return 'violated', 'a truncating adapter (map_while / take_while / take / skip ..) ends the walk at the first entry that is not a buildpack directory', coll, [], [], []
+    tests = [[p] for p in it.preds]
+    other = []
+    skip = {}
+    for lv, cd, views in sel.guards:
+        if cd.kind == 'bool':
+            tests.append(list(views))
+            skip.setdefault(cd.fn.path, []).extend((cd.sw_bb, s) for s in cd.fn.succs(cd.sw_bb) if s != cd.target)
+        elif not (cd.enum or '').startswith(('std::option::Option', 'std::result::Result')):
+            other.append('match on %s' % cd.enum)
+    vd, why = _all_paths_reach(E, e, it, skip, exhausted=True)
+    if vd == 'violated':
+        return 'violated', 'an entry that passes the tests is not always kept: %s' % why, coll, [], [], []
+    if vd != 'ok':
+        return ('unproven', why) + none
+    return 'ok', '', coll, tests, other, [e.path]
+
+
 def rules_discovery(ctx, rep):
     prog, sl = ctx.prog, ctx.slicer
     from .lib.effects import Effects
@@ -1176,76 +1489,42 @@ def rules_discovery(ctx, rep):
     E = Effects(prog, sl)
     p0 = lambda f: (lambda v: strip(peel_path(v))[0] == 'param' and strip(peel_path(v))[1] == f.path and strip(peel_path(v))[2] == 0)
     v = sl.inline_deep(sl.mk_unwrap(sl.local(fb, 0), 1), depth=6)
-    al = iters.alts(sl, v)
-    verdict, why = 'ok', ''
-    if len(al) != 1 or al[0][1] is None:
-        verdict, why = 'unproven', 'the result is not one pass over one walk: %s' % vstr(v)[:200]
+    # how the returned collection gets its elements — the same statement for both spellings:
+    #   (a) an iterator pipeline over the walk that is collected (stages = filter / filter_map / map closures), or
+    #   (b) a fresh empty Vec that is pushed to inside one pass over the walk (a loop, or a for_each closure) and handed
+    #       back after the pass ran to exhaustion
+    # -> the walk that is iterated, whether elements are dropped by position, the per-entry tests, the value kept per entry
+    v0 = strip(v)
+    if v0[0] == 'call' and len(v0) == 4 and v0[3] is not None and (_is_empty_coll(v0) or v0[1].endswith('::with_capacity')):
+        verdict, why, coll, tests, other, payloads = _filled_by_push(E, fb, strip(v))
     else:
-        el, coll, fl = al[0]
+        verdict, why, coll, tests, other, payloads = _collected_pipeline(E, v)
+    if verdict == 'ok':
         verdict, why = walker_verdict(coll, p0(fb))
-        if verdict == 'ok' and (fl == 'trunc' or any(st[3] for st in iters.stages(strip(v), with_stop=True))):
-            verdict, why = 'violated', 'a truncating adapter (map_while / take_while / take / skip ..) ends the walk at the first entry that is not a buildpack directory'
-        if verdict == 'ok':
-            # the decision per entry: <entry>/buildpack.toml exists (and the entry is a directory), nothing else
-            entry = iters.elem_of(coll)
-            is_entry_path = lambda r: (lambda x: x[0] == 'call' and x[1].endswith('DirEntry::path') and x[2] and canon(strip(peel_path(x[2][0]))) == canon(strip(entry)))(strip(peel_path(r)))
-            tests, other = [], []
-            for name, clv, rv, stopped in iters.stages(strip(v), with_stop=True):
-                g = prog.fns.get(clv[1]) if clv[0] == 'closure' else None
-                short = name.rsplit('::', 1)[1]
-                if short in ('map', 'inspect'):
-                    continue
-                if g is None or short not in ('filter', 'filter_map'):
-                    other.append(short)
-                    continue
-                ra = iters.alts(sl, rv)
-                m = {(g.path, 1): ra[0][0]} if len(ra) == 1 else {}
-                pts = [(g, s.bb) for s in E.sites(g)] if short == 'filter_map' else [(g, b) for b in g.return_blocks()]
-                if short == 'filter_map':
-                    pts = [(g, bi) for bi, b in enumerate(g.blocks) for st in b['s'] if st[0] == '=' and st[2]['r'] == 'agg' and st[2].get('variant') == 'Some']
-                    if not pts:
-                        r = sl.apply_closure(clv, (ra[0][0],)) if len(ra) == 1 else None
-                        r = strip(r) if r is not None else None
-                        if r is not None and r[0] == 'call' and r[1].endswith(('::then_some', '::then')) and len(r[2]) == 2:
-                            tests.append((r[2][0], True))
-                        else:
-                            other.append('filter_map closure')
-                        continue
-                    for g_, bi in pts:
-                        for cd in conditions(g_, bi, sl):
-                            if cd.kind == 'bool':
-                                tests.extend((E.subst(x, m), oc) for x, oc in cd.views()[:1])
-                            elif not (cd.enum or '').startswith(('std::option::Option', 'std::result::Result')):
-                                other.append('match on %s' % cd.enum)
-                else:
-                    tp = truth_paths(sl, g)
-                    if tp is None or len(ra) != 1:
-                        other.append('filter closure')
-                    else:
-                        tests.extend((E.subst(x, m), oc) for x, oc in tp)
-            has_desc = False
-            for t, oc in tests:
-                t, oc = _peel_not(strip(t), oc)
-                t = strip(t)
-                if t[0] == 'bin' and t[1] in ('BitAnd', 'And'):
-                    parts = [(t[2], oc), (t[3], oc)]
-                else:
-                    parts = [(t, oc)]
-                for x, o in parts:
-                    x = strip(x)
-                    if x[0] == 'call' and x[1] in _STAT and o is True and x[2] and \
-                            tuple(const_of(c) for c in (path_comps(x[2][0], is_entry_path) or ())) == ('buildpack.toml',):
-                        has_desc = True
-                    elif x[0] == 'call' and x[1] == 'std::path::Path::is_dir' and o is True and x[2] and is_entry_path(x[2][0]):
-                        pass
-                    else:
-                        other.append(vstr(x)[:100])
-            payload = strip(sl.mk_unwrap(el, 1)) if strip(el)[0] != 'call' else strip(el)
-            pay_ok = any(x[0] == 'call' and x[1].endswith('DirEntry::path') for x in walk(el))
-            if other:
-                verdict, why = 'unproven', 'entries are selected by more than "<entry>/buildpack.toml exists": %s' % other[:3]
-            elif not has_desc or not pay_ok:
-                verdict, why = 'violated', 'the entries returned are not the directories holding a buildpack.toml'
+    if verdict == 'ok':
+        # the decision per entry: <entry>/buildpack.toml exists (and the entry is a directory), nothing else
+        entry = iters.elem_of(coll)
+        is_entry_path = lambda r: (lambda x: x[0] == 'call' and x[1].endswith(_ENTRY_PATH) and x[2] and canon(strip(peel_path(x[2][0]))) == canon(strip(entry)))(strip(peel_path(r)))
+        has_desc = False
+        for views in tests:
+            # one test, possibly seen through a private boolean helper: it is understood if one of its views is
+            got = None
+            for t, oc in views:
+                parts_ok, desc = _entry_test_parts(t, oc, is_entry_path)
+                if parts_ok:
+                    got = desc
+                    break
+            if got is None:
+                other.append(vstr(views[0][0])[:100])
+            else:
+                has_desc = has_desc or got
+        # what is kept per entry: the entry's own path (every alternative of the value: `Some(p)` arms, `test.then_some(p)`)
+        kept = [x for pv in payloads for x in _kept_values(sl, pv)]
+        pay_ok = bool(kept) and all(is_entry_path(x) for x in kept)
+        if other:
+            verdict, why = 'unproven', 'entries are selected by more than "<entry>/buildpack.toml exists": %s' % other[:3]
+        elif not has_desc or not pay_ok:
+            verdict, why = 'violated', 'the entries returned are not the directories holding a buildpack.toml'
     if verdict == 'unproven':
         rep.unproven('R12', 'walk', _w(fb), why)
     else:
